@@ -573,21 +573,42 @@ func (c *rmCtx) leaf(body []ast.Stmt, und func(string, ...any)) *Leaf {
 		if okb && be.Op == token.EQL && isNilIdent(be.Y) {
 			corsField = c.rtField(be.X)
 		}
-		if corsField == nil || ifs.Else != nil || len(ifs.Body.List) != 1 || !c.isMissReturn(ifs.Body.List[0]) {
-			und("CORS arm: first statement is not `if rt.CORSHandler == nil { return miss }`")
+		// two spellings: `if F == nil { return miss }; [h := F(M,H);] return h|F(M,H), T, B`
+		//            or  `if F != nil { [h := F(M,H);] return h|F(M,H), T, B }; return miss`
+		var build []ast.Stmt
+		switch {
+		case corsField != nil && ifs.Else == nil && len(ifs.Body.List) == 1 && c.isMissReturn(ifs.Body.List[0]):
+			build = body[1:]
+		default:
+			if okb && be.Op == token.NEQ && isNilIdent(be.Y) && ifs.Else == nil && len(body) == 2 && c.isMissReturn(body[1]) {
+				corsField = c.rtField(be.X)
+				build = ifs.Body.List
+			}
+		}
+		if corsField == nil || build == nil {
+			und("CORS arm: first statement is not `if rt.CORSHandler == nil { return miss }` (or its inverted form)")
 			return nil
 		}
 		lf.CorsNilGuard = true
-		if len(body) != 3 {
+		if len(build) < 1 || len(build) > 2 {
 			und("CORS arm has %d statements", len(body))
 			return nil
 		}
-		as, ok := body[1].(*ast.AssignStmt)
-		if !ok || as.Tok != token.DEFINE || len(as.Lhs) != 1 || len(as.Rhs) != 1 {
-			und("CORS arm: expected `h := rt.CORSHandler(methods, headers)`")
+		ret, ok := build[len(build)-1].(*ast.ReturnStmt)
+		if !ok || len(ret.Results) != 3 {
+			und("CORS arm: does not return the handler it built")
 			return nil
 		}
-		call, ok := as.Rhs[0].(*ast.CallExpr)
+		var callE ast.Expr = ret.Results[0]
+		if len(build) == 2 {
+			as, ok := build[0].(*ast.AssignStmt)
+			if !ok || as.Tok != token.DEFINE || len(as.Lhs) != 1 || len(as.Rhs) != 1 || !c.isObj(ret.Results[0], identObj(c.info, as.Lhs[0])) {
+				und("CORS arm: expected `h := rt.CORSHandler(methods, headers)` and `return h, …`")
+				return nil
+			}
+			callE = as.Rhs[0]
+		}
+		call, ok := ast.Unparen(callE).(*ast.CallExpr)
 		if !ok || len(call.Args) != 2 || c.rtField(call.Fun) != corsField {
 			und("CORS arm: handler is not built by the guarded rt.CORSHandler field")
 			return nil
@@ -597,12 +618,6 @@ func (c *rmCtx) leaf(body []ast.Stmt, und func(string, ...any)) *Leaf {
 		lf.CorsHeaders, ok2 = c.strSliceLit(call.Args[1])
 		if !ok1 || !ok2 {
 			und("CORS arm: arguments are not constant []string literals")
-			return nil
-		}
-		h := identObj(c.info, as.Lhs[0])
-		ret, ok := body[2].(*ast.ReturnStmt)
-		if !ok || len(ret.Results) != 3 || !c.isObj(ret.Results[0], h) {
-			und("CORS arm: does not return the handler it built")
 			return nil
 		}
 		lf.Template, _ = c.constStr(ret.Results[1])
@@ -1002,9 +1017,10 @@ func buildServeModel(p *Program, fd *ast.FuncDecl) *ServeModel {
 				}
 			}
 		}
-		if fs, ok := ifs.Body.List[1].(*ast.ForStmt); ok {
+		switch ifs.Body.List[1].(type) {
+		case *ast.ForStmt, *ast.RangeStmt:
 			sm.LoopInsideHasPath = true
-			sm.LoopReverse = c.reverseWrapLoop(fs, h)
+			sm.LoopReverse = c.reverseWrapLoop(ifs.Body.List[1], h)
 		}
 	}
 	if !sm.CtxStoreOK {
@@ -1028,45 +1044,38 @@ func buildServeModel(p *Program, fd *ast.FuncDecl) *ServeModel {
 }
 
 // reverseWrapLoop: for i := len(rt.F)-1; i >= 0; i-- { h = rt.F[i](h) }
-func (c *rmCtx) reverseWrapLoop(fs *ast.ForStmt, h types.Object) bool {
-	init, ok := fs.Init.(*ast.AssignStmt)
-	if !ok || init.Tok != token.DEFINE || len(init.Lhs) != 1 || len(init.Rhs) != 1 {
+func (c *rmCtx) reverseWrapLoop(loop ast.Stmt, h types.Object) bool {
+	return c.reverseWrapLoopAfter(loop, nil, h)
+}
+
+// reverseWrapLoopAfter: the loop applies rt.F[idx](h) to h once per element, idx visiting
+// len(rt.F)-1 … 0 (any loop spelling, see revloop.go); before = the statements preceding it.
+func (c *rmCtx) reverseWrapLoopAfter(loop ast.Stmt, before []ast.Stmt, h types.Object) bool {
+	var fld *types.Var
+	isSlice := func(e ast.Expr) bool {
+		f := c.rtField(e)
+		if f == nil {
+			return false
+		}
+		if fld == nil {
+			fld = f
+		}
+		return f == fld
+	}
+	// the slice is fixed by the body's index expression
+	var body *ast.BlockStmt
+	switch l := loop.(type) {
+	case *ast.ForStmt:
+		body = l.Body
+	case *ast.RangeStmt:
+		body = l.Body
+	default:
 		return false
 	}
-	i := c.info.Defs[init.Lhs[0].(*ast.Ident)]
-	be, ok := init.Rhs[0].(*ast.BinaryExpr)
-	if !ok || be.Op != token.SUB {
+	if len(body.List) != 1 {
 		return false
 	}
-	if k, ok := c.constInt(be.Y); !ok || k != 1 {
-		return false
-	}
-	lenCall, ok := be.X.(*ast.CallExpr)
-	if !ok || len(lenCall.Args) != 1 {
-		return false
-	}
-	if id, ok := lenCall.Fun.(*ast.Ident); !ok || id.Name != "len" {
-		return false
-	}
-	fld := c.rtField(lenCall.Args[0])
-	if fld == nil {
-		return false
-	}
-	cond, ok := fs.Cond.(*ast.BinaryExpr)
-	if !ok || cond.Op != token.GEQ || !c.isObj(cond.X, i) {
-		return false
-	}
-	if k, ok := c.constInt(cond.Y); !ok || k != 0 {
-		return false
-	}
-	post, ok := fs.Post.(*ast.IncDecStmt)
-	if !ok || post.Tok != token.DEC || !c.isObj(post.X, i) {
-		return false
-	}
-	if len(fs.Body.List) != 1 {
-		return false
-	}
-	as, ok := fs.Body.List[0].(*ast.AssignStmt)
+	as, ok := body.List[0].(*ast.AssignStmt)
 	if !ok || as.Tok != token.ASSIGN || len(as.Lhs) != 1 || !c.isObj(as.Lhs[0], h) {
 		return false
 	}
@@ -1075,10 +1084,10 @@ func (c *rmCtx) reverseWrapLoop(fs *ast.ForStmt, h types.Object) bool {
 		return false
 	}
 	ix, ok := call.Fun.(*ast.IndexExpr)
-	if !ok || c.rtField(ix.X) != fld || !c.isObj(ix.Index, i) {
+	if !ok || !isSlice(ix.X) {
 		return false
 	}
-	return true
+	return newRevLoop(c.info, loop, before, isSlice).visitsDescending(ix.Index)
 }
 
 // schemaPathReadsKey: SchemaPath reads r.Context().Value(<keyT>{}) asserted to string.
